@@ -261,6 +261,10 @@ def c14(run, tier):
             cfg = run.cfg("MC_Values.cfg", {"Family": '"%s"' % fam}, "conc.%s.cfg" % fam)
             rep = run.tlc_gen_replay("MC_Values", cfg, "conc-" + fam, timeout=Q(tier, 600, 3000), harness_args=["-workers", "2"])
             run.absorb(rep, VALUE_ASPECTS)
+        # ... and the axes: every pair of axes from a node of the fixed 31-node document, the ~470 cases of a line evaluated at once
+        # on a tree that was built just before - no serial warm-up, so lazily built shared state is first touched concurrently
+        rep = run.tlc_gen_replay("MC_Fixed", run.cfg("MC_Fixed.cfg", {}, "conc.fixed.cfg"), "conc-axes", timeout=900, harness_args=["-workers", "2"])
+        run.absorb(rep, VALUE_ASPECTS | {"order"})
     finally:
         run.harness = saved
         del run.env["VERIF_CASE_CONC"]
